@@ -1,12 +1,21 @@
 // ===== prelude/world.rs — ghost world threaded through every traced operation (DESIGN §5.1) =====
-pub struct Slot { pub resolved: bool, pub observed: bool, pub sent: Option<int>, pub sender_gone: bool }
+// a `running` slot: the oneshot whose Shared receiver every Addr / WeakAddr / Context holds.
+//   resolved: the inner oneshot has a result (notifier fired, or was dropped un-fired) — this is `terminated`
+//   observed: some Shared handle's poll has driven the inner receiver to completion (state COMPLETE)
+pub struct Slot { pub resolved: bool, pub observed: bool }
+pub struct AnyVal { pub tid: int, pub slot: int, pub cid: int }    // abstract content of a type-erased box holding an Addr
+pub enum TaskSt { Held, Detached }
 pub struct World {
-    pub lc: Lc,                 // lifecycle automaton state of the actor task under proof
-    pub trace: Seq<Ev>,         // its event trace (lc is the fold of `step` over it, by construction of the stand-ins)
-    pub slots: Map<int, Slot>,  // oneshot slots: response slots and the `running` slot
+    pub lc: Lc,                        // lifecycle automaton state of the actor task under proof
+    pub trace: Seq<Ev>,                // its event trace (lc is the fold of `step` over it, by construction of the stand-ins)
+    pub slots: Map<int, Slot>,         // running slots
+    pub registry: Map<int, AnyVal>,    // the service registry, keyed by type_id::<A>()
+    pub reg_acq: Map<int, AnyVal>,     // the registry as it was when the lock was last acquired
+    pub locked: bool,                  // this task holds the registry lock
+    pub tasks: Map<int, TaskSt>,       // runtime tasks spawned so far: handle still held / detached
 }
 pub open spec fn emits(pre: &World, post: &World, e: Ev) -> bool {
-    post.lc == step(pre.lc, e) && post.trace == pre.trace.push(e) && post.slots == pre.slots
+    *post == World { lc: step(pre.lc, e), trace: pre.trace.push(e), ..*pre }
 }
 pub open spec fn same_world(pre: &World, post: &World) -> bool { *post == *pre }
 
